@@ -145,6 +145,13 @@ func gBuild(c gCase) []*GNode {
 		case "imap":
 			return imaps[r.V-1]
 		case "box":
+			// a value with a reference inside: a struct for odd nodes, for even nodes a slice header whose array has
+			// spare capacity (interface-held slices built with append / make(n, m) look like that)
+			if r.V%2 == 0 {
+				sl := make([]*GNode, 1, 3)
+				sl[0] = nodes[r.V-1]
+				return sl
+			}
 			return GBox{P: nodes[r.V-1]}
 		}
 		return nil
@@ -164,7 +171,7 @@ func gBuild(c gCase) []*GNode {
 			n.P = node(r)
 		}
 		if nv["s1"].T == "node" || nv["s2"].T == "node" {
-			n.S = []*GNode{node(nv["s1"]), node(nv["s2"])}
+			n.S = append(make([]*GNode, 0, 2+i%3), node(nv["s1"]), node(nv["s2"])) // (spare capacity for some nodes)
 		}
 		if r, ok := nv["a"]; ok {
 			n.A[0] = node(r)
@@ -280,6 +287,18 @@ func gIface(o, c interface{}, path string, seen map[*GNode]bool, out *[]gSite, d
 			*out = append(*out, gSite{path + ".P", reflect.ValueOf(ov.P).Pointer(), reflect.ValueOf(cv.P).Pointer()})
 		}
 		gWalk(ov.P, cv.P, path+".P", seen, out, diffs)
+	case []*GNode:
+		cv, ok := c.([]*GNode)
+		if !ok || len(cv) != len(ov) {
+			*diffs = append(*diffs, path+": dynamic type or length differs")
+			return
+		}
+		for i := range ov {
+			if ov[i] != nil && cv[i] != nil {
+				*out = append(*out, gSite{fmt.Sprintf("%s[%d]", path, i), reflect.ValueOf(ov[i]).Pointer(), reflect.ValueOf(cv[i]).Pointer()})
+			}
+			gWalk(ov[i], cv[i], fmt.Sprintf("%s[%d]", path, i), seen, out, diffs)
+		}
 	case map[string]*GNode:
 		cv, ok := c.(map[string]*GNode)
 		if !ok {
